@@ -593,6 +593,7 @@ func crashRun(args []string) error {
 		Ops    []l2.WorkOp `json:"ops"`
 		Crash  string      `json:"crash"`
 		KillAt int         `json:"kill_at_ms"`
+		CkptMs int         `json:"ckpt_ms"`
 		HitLog bool        `json:"hitlog"`
 	}
 	var jobs []job
@@ -634,7 +635,7 @@ func crashRun(args []string) error {
 				return
 			}
 			defer os.RemoveAll(dir)
-			r := &l2.Run{Bin: *bin, Dir: dir, Name: j.Name, Ops: j.Ops, Crash: j.Crash, KillAt: time.Duration(j.KillAt) * time.Millisecond, HitLog: j.HitLog}
+			r := &l2.Run{Bin: *bin, Dir: dir, Name: j.Name, Ops: j.Ops, Crash: j.Crash, KillAt: time.Duration(j.KillAt) * time.Millisecond, HitLog: j.HitLog, CkptMs: j.CkptMs}
 			ev, err := r.Execute()
 			results[i] = result{events: ev, err: err}
 			if j.HitLog {
